@@ -11,6 +11,7 @@ For every `@x.setter` of every class in the anchored files this translator extra
   * a whole-file check that `self._x = ...` is written nowhere but inside the setter of `x`.
 Nothing from /repo is imported or executed.  `generate(repo)` returns (coq_text, info, errors)."""
 import ast
+import copy
 import glob
 import os
 import re
@@ -235,7 +236,228 @@ def messages_in(fn):
     return out
 
 
-def tr_setter(cls, fn, file):
+# ---------------------------------------------------------------- harmless spellings: temporaries and helper calls
+#
+# Before the clause translation the setter body is NORMALISED to the plain shape (a list of `if`s and the store):
+#   * `t = EXPR` with EXPR a term or a condition of the language, assigned once, never the parameter: every later
+#     use of `t` is replaced by EXPR.  EXPR is evaluated where it is assigned, so unless it cannot raise
+#     (isinstance/callable tests, constants, the value itself) the NEXT statement must be a clause that evaluates
+#     `t` before anything that could raise or decide -- then hoisting does not change which exception wins.
+#   * an expression statement `helper(args)` / `self.helper(args)` / `Cls.helper(args)` where `helper` is a function
+#     of the same module (or a method / staticmethod of the same class) whose body is itself a guard sequence is
+#     replaced by that body with the formals substituted; actuals must be constants, the setter's value or a public
+#     `self.attr` (read early: equivalent under the standing assumption `state_ok` that companions exist);
+#     messages built from constants (f-string, %, +, .format) are folded to literals.
+# Everything else still raises TranslationError.
+RESERVED = {'self', 'e', 'np', 'numpy', 'isinstance', 'callable', 'len', 'signature', 'int', 'float', 'bool', 'str',
+            'list', 'tuple', 'dict', 'True', 'False', 'None'} | set(TYPES)
+MAX_INLINE_DEPTH = 3
+
+
+def const_str(n):
+    """the string a constant-only string expression denotes, or None"""
+    def atom(x):
+        if isinstance(x, ast.Constant) and isinstance(x.value, (str, int, float)) and not isinstance(x.value, bool):
+            return x.value
+        return None
+    if isinstance(n, ast.Constant) and isinstance(n.value, str):
+        return n.value
+    if isinstance(n, ast.JoinedStr):
+        parts = []
+        for v in n.values:
+            if isinstance(v, ast.Constant) and isinstance(v.value, str):
+                parts.append(v.value)
+            elif isinstance(v, ast.FormattedValue) and v.conversion == -1 and v.format_spec is None and atom(v.value) is not None:
+                parts.append(str(atom(v.value)))
+            else:
+                return None
+        return ''.join(parts)
+    if isinstance(n, ast.BinOp) and isinstance(n.op, ast.Add):
+        a, b = const_str(n.left), const_str(n.right)
+        return a + b if a is not None and b is not None else None
+    if isinstance(n, ast.BinOp) and isinstance(n.op, ast.Mod):
+        a = const_str(n.left)
+        args = n.right.elts if isinstance(n.right, ast.Tuple) else [n.right]
+        vals = [atom(x) for x in args]
+        if a is None or any(v is None for v in vals):
+            return None
+        try:
+            return a % tuple(vals)
+        except (TypeError, ValueError):
+            return None
+    if (isinstance(n, ast.Call) and isinstance(n.func, ast.Attribute) and n.func.attr == 'format' and not n.keywords
+            and const_str(n.func.value) is not None and all(atom(x) is not None for x in n.args)):
+        try:
+            return const_str(n.func.value).format(*[atom(x) for x in n.args])
+        except (IndexError, KeyError, ValueError):
+            return None
+    return None
+
+
+class _Subst(ast.NodeTransformer):
+    def __init__(self, env):
+        self.env = env
+
+    def visit_Name(self, n):
+        if isinstance(n.ctx, ast.Load) and n.id in self.env:
+            return ast.copy_location(copy.deepcopy(self.env[n.id]), n)
+        return n
+
+
+class _FoldStr(ast.NodeTransformer):
+    def generic_visit(self, n):
+        n = super().generic_visit(n)
+        if isinstance(n, (ast.JoinedStr, ast.BinOp, ast.Call)):
+            s = const_str(n)
+            if s is not None:
+                return ast.copy_location(ast.Constant(value=s), n)
+        return n
+
+
+def _subst(env, node):
+    node = copy.deepcopy(node)
+    if env:
+        node = _Subst(env).visit(node)
+    return ast.fix_missing_locations(_FoldStr().visit(node))
+
+
+def _total_tree(t):
+    k = t[0]
+    if k in ('val', 'const', 'isinst', 'callable'):
+        return True
+    if k == 'not':
+        return _total_tree(t[1])
+    if k in ('and', 'or'):
+        return _total_tree(t[1]) and _total_tree(t[2])
+    return False
+
+
+def _first_atom(test):
+    while True:
+        if isinstance(test, ast.UnaryOp) and isinstance(test.op, ast.Not):
+            test = test.operand
+        elif isinstance(test, ast.BoolOp):
+            test = test.values[0]
+        else:
+            return test
+
+
+def _uses_first(nxt, name, param):
+    """`nxt` is a clause whose condition evaluates `name` before anything that could raise or decide"""
+    if not isinstance(nxt, ast.If):
+        return False
+    a = _first_atom(nxt.test)
+    if isinstance(a, ast.Name) and a.id == name:
+        return True
+    if isinstance(a, ast.Compare):
+        for o in [a.left] + list(a.comparators):
+            if isinstance(o, ast.Name) and o.id == name:
+                return True
+            if isinstance(o, ast.Constant) or (isinstance(o, ast.Name) and o.id == param):
+                continue
+            if isinstance(o, ast.UnaryOp) and isinstance(o.op, ast.USub) and isinstance(o.operand, ast.Constant):
+                continue
+            return False
+    return False
+
+
+def _stores_name(stmts, name):
+    for st in stmts:
+        for n in ast.walk(st):
+            if isinstance(n, ast.Name) and n.id == name and isinstance(n.ctx, (ast.Store, ast.Del)):
+                return True
+    return False
+
+
+def find_helper(call, hctx):
+    """-> (FunctionDef, drop_self) for a call of a same-module function / same-class method, else None"""
+    f = call.func
+    if isinstance(f, ast.Name) and f.id in hctx['module']:
+        return hctx['module'][f.id], False
+    if isinstance(f, ast.Attribute) and isinstance(f.value, ast.Name) and f.attr in hctx['klass']:
+        fn = hctx['klass'][f.attr]
+        decos = [d.id if isinstance(d, ast.Name) else ast.unparse(d) for d in fn.decorator_list]
+        if decos == ['staticmethod'] and f.value.id in ('self', hctx['cls']):
+            return fn, False
+        if not decos and f.value.id == 'self':
+            return fn, True
+    return None
+
+
+def inline_call(call, param, file, hctx, depth):
+    fn, drop_self = find_helper(call, hctx)
+    if depth >= MAX_INLINE_DEPTH:
+        raise TranslationError(file, call, 'helper calls nested deeper than %d' % MAX_INLINE_DEPTH)
+    a = fn.args
+    if a.vararg or a.kwarg or a.kwonlyargs or a.posonlyargs:
+        raise TranslationError(file, fn, 'helper `%s` has a signature T1 does not inline' % fn.name)
+    formals = [x.arg for x in a.args]
+    if drop_self:
+        if not formals or formals[0] != 'self':
+            raise TranslationError(file, fn, 'method helper `%s` without self' % fn.name)
+        formals = formals[1:]
+    env = {}
+    defaults = dict(zip(formals[len(formals) - len(a.defaults):], a.defaults)) if a.defaults else {}
+    if len(call.args) > len(formals) or any(isinstance(x, ast.Starred) for x in call.args):
+        raise TranslationError(file, call, 'call of `%s` does not match its signature' % fn.name)
+    for f, x in zip(formals, call.args):
+        env[f] = x
+    for kw in call.keywords:
+        if kw.arg is None or kw.arg not in formals or kw.arg in env:
+            raise TranslationError(file, call, 'call of `%s` does not match its signature' % fn.name)
+        env[kw.arg] = kw.value
+    for f in formals:
+        if f not in env:
+            if f not in defaults:
+                raise TranslationError(file, call, 'call of `%s` misses argument `%s`' % (fn.name, f))
+            env[f] = defaults[f]
+    for f, x in env.items():
+        ok = (isinstance(x, ast.Constant) or (isinstance(x, ast.Name) and x.id == param)
+              or (_is_self_attr(x) and not x.attr.startswith('_'))
+              or (isinstance(x, ast.UnaryOp) and isinstance(x.op, ast.USub) and isinstance(x.operand, ast.Constant)))
+        if not ok:
+            raise TranslationError(file, call, 'argument `%s` of helper `%s` is not a constant, the value or a public self attribute'
+                                   % (ast.unparse(x), fn.name))
+    body = body_wo_doc(fn)
+    if _stores_name(body, 'self') or any(_stores_name(body, f) for f in formals):
+        raise TranslationError(file, fn, 'helper `%s` rebinds one of its parameters' % fn.name)
+    body = [_subst(env, st) for st in body]
+    out = normalize_body(body, param, file, hctx, depth + 1)
+    for st in out:
+        if not isinstance(st, ast.If):
+            raise TranslationError(file, st, 'helper `%s` is not a pure guard sequence (`%s`)' % (fn.name, ast.unparse(st)[:60]))
+    return out
+
+
+def normalize_body(stmts, param, file, hctx, depth=0):
+    out, env = [], {}
+    for i, raw in enumerate(stmts):
+        st = _subst(env, raw)
+        if (isinstance(st, ast.Assign) and len(st.targets) == 1 and isinstance(st.targets[0], ast.Name)):
+            name = st.targets[0].id
+            if name == param or name in RESERVED or name in env or name in hctx['module'] or _stores_name(stmts[i + 1:], name):
+                raise TranslationError(file, st, 'local `%s` is rebound, shadows a name T1 relies on, or is the value itself' % name)
+            try:
+                tree = tr_term(st.value, param, file)
+            except TranslationError:
+                try:
+                    tree = tr_cond(st.value, param, file)
+                except TranslationError:
+                    raise TranslationError(file, st, 'local `%s` is not a term or condition of the guard language: `%s`'
+                                           % (name, ast.unparse(st.value)))
+            if not _total_tree(tree) and not (i + 1 < len(stmts) and _uses_first(stmts[i + 1], name, param)):
+                raise TranslationError(file, st, 'local `%s` may raise where it is assigned, earlier than its first use '
+                                                 '(the next statement must be the clause that tests it first)' % name)
+            env[name] = st.value
+            continue
+        if isinstance(st, ast.Expr) and isinstance(st.value, ast.Call) and find_helper(st.value, hctx) is not None:
+            out += inline_call(st.value, param, file, hctx, depth)
+            continue
+        out.append(st)
+    return out
+
+
+def tr_setter(cls, fn, file, hctx=None):
     attr = fn.name
     args = [a.arg for a in fn.args.args]
     if len(args) != 2 or args[0] != 'self' or fn.args.vararg or fn.args.kwarg or fn.args.kwonlyargs:
@@ -253,6 +475,9 @@ def tr_setter(cls, fn, file):
         body = body[0].orelse
     if not body:
         raise TranslationError(file, fn, 'empty setter')
+    body = normalize_body(body, param, file, hctx or {'module': {}, 'klass': {}, 'cls': cls})
+    if not body:
+        raise TranslationError(file, fn, 'empty setter')
     last = body[-1]
     if not is_store(last, attr, lambda v: isinstance(v, ast.Name) and v.id == param):
         raise TranslationError(file, last, 'the last statement is not the store `self._%s = %s` (atomicity)' % (attr, param))
@@ -268,12 +493,24 @@ def tr_build(cls, fn, file):
     out = {'cls': cls, 'name': fn.name, 'file': file, 'line': fn.lineno, 'params': args[1:], 'items': [],
            'plain': [], 'dict': None, 'sets_built': False, 'sets_hyper': False}
 
+    aliases = {}
+
     def plain_assign(st):
-        # self.a = <expr>  or  self.a, self.b = <expr>
+        # self.a = <expr>  or  self.a, self.b = <expr>  or a local  name = <expr>  (no attribute is stored)
         if not isinstance(st, ast.Assign) or len(st.targets) != 1:
             raise TranslationError(file, st, 'unsupported statement in %s' % fn.name)
         tg = st.targets[0]
         tgs = tg.elts if isinstance(tg, ast.Tuple) else [tg]
+        if all(isinstance(t, ast.Name) for t in tgs):
+            for t in tgs:
+                if t.id in args or t.id in aliases or t.id in RESERVED:
+                    raise TranslationError(file, st, 'local `%s` rebinds a parameter or a name T1 relies on in %s' % (t.id, fn.name))
+            if len(tgs) == 1 and dict_expr(st.value) is not None:
+                aliases[tgs[0].id] = dict_expr(st.value)      # another name for the dictionary
+            else:
+                for t in tgs:
+                    aliases[t.id] = None                       # an ordinary local (e.g. feeding a log message)
+            return
         for t in tgs:
             if not _is_self_attr(t):
                 raise TranslationError(file, st, 'unsupported assignment target in %s' % fn.name)
@@ -288,6 +525,8 @@ def tr_build(cls, fn, file):
     def dict_expr(n):
         if isinstance(n, ast.Name) and n.id in args[1:]:
             return n.id
+        if isinstance(n, ast.Name) and aliases.get(n.id):
+            return aliases[n.id]
         if _is_self_attr(n) and not n.attr.startswith('_'):
             return 'self.' + n.attr
         return None
@@ -322,8 +561,12 @@ def tr_build(cls, fn, file):
 
 # ---------------------------------------------------------------- whole files
 
-def scan_class(cnode, file, info, errors):
+def scan_class(cnode, file, info, errors, module_funcs=None):
     cls = cnode.name
+    hctx = {'module': module_funcs or {}, 'cls': cls,
+            'klass': {f.name: f for f in cnode.body if isinstance(f, ast.FunctionDef)
+                      and not any(isinstance(d, ast.Attribute) or (isinstance(d, ast.Name) and d.id == 'property')
+                                  for d in f.decorator_list)}}
     bases = []
     for b in cnode.bases:
         bases.append(b.id if isinstance(b, ast.Name) else ast.unparse(b))
@@ -345,7 +588,7 @@ def scan_class(cnode, file, info, errors):
             try:
                 if setter_of != fn.name:
                     raise TranslationError(file, fn, 'decorator @%s.setter on function %s' % (setter_of, fn.name))
-                g = tr_setter(cls, fn, file)
+                g = tr_setter(cls, fn, file, hctx)
                 g['doms'] = [c['dom'] for c in g['clauses']]
                 g['model_error'] = None
                 cinfo['guards'].append(g)
@@ -524,7 +767,7 @@ def generate(repo):
         info['files'].append(rel)
         for n in tree.body:
             if isinstance(n, ast.ClassDef):
-                scan_class(n, rel, info, errors)
+                scan_class(n, rel, info, errors, {f.name: f for f in tree.body if isinstance(f, ast.FunctionDef)})
     out = [HEADER, '(* T1: property setters and hyperparameter builds of the anchored classes *)',
            'From Coq Require Import ZArith QArith List String.', 'From OV Require Import Model.Guards.',
            'Import ListNotations.', 'Open Scope string_scope.', 'Open Scope Z_scope.', 'Open Scope list_scope.', '']
